@@ -204,8 +204,12 @@ def r09_2_registry(chk):
     ix = chk.ix
     reg = ix.get_class("EFLRSetsDict")
     n = 0
+    # private helpers of the registry are judged through the methods that call them (the guard may sit in the caller)
+    called_inside = {g for f0 in reg.methods.values() for g in chk.cg.callees(f0) if g.cls is reg}
     for name, f in reg.methods.items():
-        su = chk.summary(f)
+        if f.name.startswith("_") and not f.name.startswith("__") and f in called_inside:
+            continue
+        su = chk.terms.inline(f, 3, stop=lambda g: g.cls is not reg or g.name == "__init__")
         stores = [e for e in su.effects if e.kind == "store_sub" and contains(e.base, SELF)]
         for e in stores:
             n += 1
